@@ -1,103 +1,247 @@
 (** C10 — saving an unmodified BSP is lossless whichever lump views were looked at.
     Only statements here; the model is SM/LazyLumps.v, the proofs are in SM/LazyLumpsProofs.v.
 
-    The theorems hold for EVERY dependency graph [g] with [order_consistent g = true]; the instance
-    obligation [order_consistent bsp_graph = true] for the graph generated from today's bsp.py
-    (Gen/BspGraph_gen.v) is discharged by the check on every run (vm_compute; reflexivity).
-    [rd] / [wr] are the per-view lump codecs; "the writer inverts the reader on the lumps of this file"
-    ([codec_ok], [wr_len_ok]; that is property C11) is a visible hypothesis. *)
+    The theorems hold for EVERY dependency graph [g] with [order_consistent g = true] and every statement
+    order of __get__ / loop shape of save [sh] with [shape_ok sh = true]; the instance obligations
+    [order_consistent bsp_graph = true] and [shape_ok bsp_shape = true] for the graph and the shape generated
+    from today's bsp.py (Gen/BspGraph_gen.v) are discharged by the check on every run (vm_compute; reflexivity).
+    [rd] / [wr] are the per-view lump codecs; [rd] returns [None] when the reader raises, and access sequences
+    may contain looks that raise (the caller catches the exception and goes on).  "The writer inverts the reader
+    on the lumps of this file" ([codec_ok], [wr_len_ok]; that is property C11) is a visible hypothesis.
+    [save] returns a flag: [false] when a look inside a writer raised (BSP.save raises, no file is written). *)
 From Coq Require Import List Arith.
-From SV Require Import SM.LazyLumps SM.LazyLumpsProofs.
+From Coq Require Import NArith.
+From SV Require Import SM.LazyLumps SM.LazyLumpsProofs SM.LazyLumpsAppend Fmt.BspContainer Fmt.BspContainerProofs.
+From SV Require Bin.FindInsert.
 Import ListNotations.
 
 Section C10.
   Variables D P : Type.
   Variable empty : D.
-  Variable rd : nat -> list D -> P.
+  Variable rd : nat -> list D -> option P.
   Variable wr : nat -> P -> list D.
   Variable g : graph.
+  Variable sh : shape.
 
   Notation state := (state D P).
-  Notation run := (run D P empty rd g).
-  Notation get := (get D P empty rd g).
-  Notation save := (save D P empty rd wr g).
+  Notation run := (run D P empty rd g sh).
+  Notation get := (get D P empty rd g sh).
+  Notation save := (save D P empty rd wr g sh).
   Notation fresh := (fresh D P).
   Notation codec_ok := (codec_ok D P rd wr g).
   Notation wr_len_ok := (wr_len_ok D P rd wr g).
+  Notation writers_can_look := (writers_can_look D P rd g).
   Notation same_content := (same_content D P rd g).
+  Notation denote := (denote D P rd g).
 
-  (** If no view was looked at, saving leaves every lump byte-identical (no condition on the graph). *)
-  Theorem c10_nothing_viewed_identity : forall s : state, fresh s -> save s = s.
-  Proof. exact (save_fresh_id D P empty rd wr g). Qed.
+  (** If no view was looked at, saving leaves every lump byte-identical (no condition on graph or shape). *)
+  Theorem c10_nothing_viewed_identity : forall s : state, fresh s -> save s = (true, s).
+  Proof. exact (save_fresh_id D P empty rd wr g sh). Qed.
 
-  (** Looking at a view always succeeds (the reader nesting is bounded by the number of views). *)
-  Theorem c10_get_total : order_consistent g = true ->
-    forall (s0 : state) accs v, fresh s0 -> v < nviews g -> exists p, cache (get v (run accs s0)) v = Some p.
-  Proof. exact (get_total D P empty rd wr g). Qed.
+  (** A look either succeeds, and then the view is cached with what its reader makes of the file's lumps, or
+      raises, and then only because the reader of this view or of a view later in the rebuild order rejects the
+      file's data (the reader nesting is bounded by the number of views: fuel is never the reason). *)
+  Theorem c10_get_total : order_consistent g = true -> shape_ok sh = true ->
+    forall (s0 : state) accs v, fresh s0 -> v < nviews g ->
+    let r := get v (run accs s0) in
+    (fst r = true -> exists p, cache (snd r) v = Some p /\ rd v (own_data D P g s0 v) = Some p) /\
+    (fst r = false -> exists e, v <= e /\ e < nviews g /\ rd e (own_data D P g s0 e) = None) /\
+    ((forall e, v <= e -> e < nviews g -> rd e (own_data D P g s0 e) <> None) -> fst r = true).
+  Proof. exact (get_total D P empty rd wr g sh). Qed.
 
-  (** Merely looking never empties or changes a lump: after ANY sequence of accesses every view still denotes
-      the content parsed from the original file (cleared raw data is always matched by a cached value), and
-      lumps without a structured view are untouched. *)
-  Theorem c10_view_look_preserves : order_consistent g = true ->
+  (** A look that raises is the identity as far as the property can see: after ANY access sequence, a failing
+      look leaves the view uncached and its lumps untouched, every view denotes what it denoted, lumps without
+      a view are unchanged. *)
+  Theorem c10_failed_get_is_identity : order_consistent g = true -> shape_ok sh = true ->
+    forall (s0 : state) accs v, fresh s0 -> v < nviews g ->
+    let s := run accs s0 in let r := get v s in fst r = false ->
+    cache (snd r) v = None /\ (forall l, In l (own g v) -> raw (snd r) l = raw s l) /\
+    (forall w, w < nviews g -> denote (snd r) w = denote s w) /\
+    (forall l, ~ owned g l -> raw (snd r) l = raw s l).
+  Proof. exact (failed_get_is_identity D P empty rd wr g sh). Qed.
+
+  (** ... and literally the identity for a view whose reader looks at no other view (needs only the statement
+      order of __get__: no graph condition, any state). *)
+  Theorem c10_failed_get_leaf_identity : sh_early_main sh = false -> sh_early_extra sh = false ->
+    forall v (s : state), v_rdeps (decl g v) = [] -> fst (get v s) = false -> snd (get v s) = s.
+  Proof. intros E1 E2. exact (failed_get_leaf_identity D P empty rd g sh E1 E2 (nviews g)). Qed.
+
+  (** Merely looking never empties or changes a lump: after ANY sequence of accesses (successful or raising)
+      every view still denotes the content parsed from the original file (cleared raw data is always matched by
+      a cached value), and lumps without a structured view are untouched. *)
+  Theorem c10_view_look_preserves : order_consistent g = true -> shape_ok sh = true ->
     forall (s0 : state) accs, fresh s0 ->
     let s := run accs s0 in
-    (forall v, v < nviews g -> denote D P rd g s v = denote D P rd g s0 v) /\
+    (forall v, v < nviews g -> denote s v = denote s0 v) /\
     (forall l, ~ owned g l -> raw s l = raw s0 l).
-  Proof. exact (view_look_preserves D P empty rd wr g). Qed.
+  Proof. exact (view_look_preserves D P empty rd wr g sh). Qed.
 
-  (** Main statement: for ALL access sequences (any subset of views, any order, repetitions), after save the
-      cache is empty, every view parses to the same content as before, every lump without a view is
-      byte-identical. *)
-  Theorem c10_save_lossless : order_consistent g = true ->
+  (** Main statement: for ALL access sequences (any subset of views, any order, repetitions, looks that raise),
+      if save completes the cache is empty, every view parses to the same content as before (or is rejected
+      exactly as before), every lump without a view is byte-identical; and save does complete when every view a
+      writer looks at can be parsed whenever the writer's own view could. *)
+  Theorem c10_save_lossless : order_consistent g = true -> shape_ok sh = true ->
     forall (s0 : state) accs, fresh s0 -> wr_len_ok s0 -> codec_ok s0 ->
-    let s' := save (run accs s0) in fresh s' /\ same_content s' s0.
-  Proof. exact (save_lossless D P empty rd wr g). Qed.
+    let r := save (run accs s0) in
+    (fst r = true -> fresh (snd r) /\ same_content (snd r) s0) /\ (writers_can_look s0 -> fst r = true).
+  Proof. exact (save_lossless D P empty rd wr g sh). Qed.
+
+  (** [writers_can_look] is a consequence of a decidable condition on the graph alone (an instance obligation for
+      today's bsp.py): every view a writer looks at is among the views the reader of the same view looks at. *)
+  Theorem c10_writers_can_look_from_graph :
+    wdeps_within_rdeps g = true -> forall s0 : state, writers_can_look s0.
+  Proof. exact (writers_can_look_from_graph D P rd g). Qed.
 
   (** Lumps of views outside any dependency-closed set containing the accessed views stay byte-identical. *)
-  Theorem c10_save_untouched_exact : order_consistent g = true ->
+  Theorem c10_save_untouched_exact : order_consistent g = true -> shape_ok sh = true ->
     forall (s0 : state) accs (R : nat -> Prop), fresh s0 -> wr_len_ok s0 ->
     (forall v d, v < nviews g -> R v -> In d (v_rdeps (decl g v) ++ v_wdeps (decl g v)) -> R d) ->
     (forall v, In v accs -> R v) ->
-    let s' := save (run accs s0) in
-    forall v l, v < nviews g -> ~ R v -> In l (own g v) -> raw s' l = raw s0 l.
-  Proof. exact (save_untouched_exact D P empty rd wr g). Qed.
+    let r := save (run accs s0) in fst r = true ->
+    forall v l, v < nviews g -> ~ R v -> In l (own g v) -> raw (snd r) l = raw s0 l.
+  Proof. exact (save_untouched_exact D P empty rd wr g sh). Qed.
 
   (** Saving the result again changes nothing. *)
-  Theorem c10_save_idempotent : order_consistent g = true ->
+  Theorem c10_save_idempotent : order_consistent g = true -> shape_ok sh = true ->
     forall (s0 : state) accs, fresh s0 -> wr_len_ok s0 ->
-    let s' := save (run accs s0) in save s' = s'.
-  Proof. exact (save_idempotent D P empty rd wr g). Qed.
+    let r := save (run accs s0) in fst r = true -> save (snd r) = (true, snd r).
+  Proof. exact (save_idempotent D P empty rd wr g sh). Qed.
 
   (** Any number of look/save cycles, each with its own access sequence. *)
-  Theorem c10_cycles_lossless : order_consistent g = true ->
+  Theorem c10_cycles_lossless : order_consistent g = true -> shape_ok sh = true ->
     forall cs (s0 : state), fresh s0 -> wr_len_ok s0 -> codec_ok s0 ->
-    let s' := run_cycles D P empty rd wr g cs s0 in fresh s' /\ same_content s' s0.
-  Proof. exact (cycles_lossless D P empty rd wr g). Qed.
+    let r := run_cycles D P empty rd wr g sh cs s0 in fst r = true -> fresh (snd r) /\ same_content (snd r) s0.
+  Proof. exact (cycles_lossless D P empty rd wr g sh). Qed.
 End C10.
 
-(** The hypotheses are satisfiable (a consistent graph with reader and writer dependencies, identity codec). *)
+(** The hypotheses are satisfiable (a consistent graph with reader and writer dependencies, identity codec whose
+    reader rejects lumps starting with 99), also on a file where a look raises. *)
 Theorem c10_hypotheses_satisfiable :
-  order_consistent g_ok = true /\ fresh nat (list nat) ex_s0 /\
-  wr_len_ok nat (list nat) ex_rd ex_wr g_ok ex_s0 /\ codec_ok nat (list nat) ex_rd ex_wr g_ok ex_s0.
-Proof. exact (conj g_ok_consistent ex_hyps). Qed.
+  order_consistent g_ok = true /\ shape_ok std_shape = true /\ fresh nat (list nat) ex_s0 /\
+  wr_len_ok nat (list nat) ex_rd ex_wr g_ok ex_s0 /\ codec_ok nat (list nat) ex_rd ex_wr g_ok ex_s0 /\
+  writers_can_look nat (list nat) ex_rd g_ok ex_s0.
+Proof. exact (conj g_ok_consistent (conj eq_refl ex_hyps)). Qed.
+
+Theorem c10_failing_look_example :
+  let q := get nat (list nat) 0 ex_rd g_part std_shape 0 ex_bad in
+  let r := save nat (list nat) 0 ex_rd ex_wr g_part std_shape (snd q) in
+  order_consistent g_part = true /\
+  fst q = false /\ map (cache (snd q)) [0; 1; 2] = [None; Some [2; 6]; None] /\
+  map (raw (snd q)) [0; 1; 2; 3; 5] = [1; 0; 99; 4; 0] /\
+  fst r = true /\ map (raw (snd r)) [0; 1; 2; 3; 5] = [1; 2; 99; 4; 6] /\ map (cache (snd r)) [0; 1; 2] = [None; None; None].
+Proof. exact g_part_failing_look. Qed.
 
 (** Each clause of [order_consistent] is necessary: closed counterexamples (lump 0 = b''). *)
 Theorem c10_self_dependent_writer_refuted :
-  let s' := save nat (list nat) 0 ex_rd ex_wr g_self (run nat (list nat) 0 ex_rd g_self [0] ex_s0) in
-  order_consistent g_self = false /\ raw ex_s0 0 = 1 /\ raw s' 0 = 0 /\ cache s' 0 = Some [0].
+  let r := save nat (list nat) 0 ex_rd ex_wr g_self std_shape (run nat (list nat) 0 ex_rd g_self std_shape [0] ex_s0) in
+  order_consistent g_self = false /\ raw ex_s0 0 = 1 /\ fst r = true /\ raw (snd r) 0 = 0 /\ cache (snd r) 0 = Some [0].
 Proof. exact self_dependent_writer_refuted. Qed.
 
 Theorem c10_rebuild_order_refuted :
-  let s' := save nat (list nat) 0 ex_rd ex_wr g_order (run nat (list nat) 0 ex_rd g_order [1] ex_s0) in
-  order_consistent g_order = false /\ raw ex_s0 0 = 1 /\ raw s' 0 = 0 /\ cache s' 0 = Some [1].
+  let r := save nat (list nat) 0 ex_rd ex_wr g_order std_shape (run nat (list nat) 0 ex_rd g_order std_shape [1] ex_s0) in
+  order_consistent g_order = false /\ raw ex_s0 0 = 1 /\ fst r = true /\ raw (snd r) 0 = 0 /\ cache (snd r) 0 = Some [1].
 Proof. exact rebuild_order_refuted. Qed.
 
 Theorem c10_cleared_lump_not_rewritten_refuted :
-  let s' := save nat (list nat) 0 ex_rd ex_wr g_unstored (run nat (list nat) 0 ex_rd g_unstored [0] ex_s0) in
-  order_consistent g_unstored = false /\ raw ex_s0 1 = 2 /\ raw s' 1 = 0.
+  let r := save nat (list nat) 0 ex_rd ex_wr g_unstored std_shape (run nat (list nat) 0 ex_rd g_unstored std_shape [0] ex_s0) in
+  order_consistent g_unstored = false /\ raw ex_s0 1 = 2 /\ fst r = true /\ raw (snd r) 1 = 0.
 Proof. exact cleared_lump_not_rewritten_refuted. Qed.
 
 Theorem c10_shared_lump_refuted :
-  let s' := save nat (list nat) 0 ex_rd ex_wr g_shared (run nat (list nat) 0 ex_rd g_shared [0; 1] ex_s0) in
-  order_consistent g_shared = false /\ raw ex_s0 7 = 8 /\ raw s' 7 = 0.
+  let r := save nat (list nat) 0 ex_rd ex_wr g_shared std_shape (run nat (list nat) 0 ex_rd g_shared std_shape [0; 1] ex_s0) in
+  order_consistent g_shared = false /\ raw ex_s0 7 = 8 /\ fst r = true /\ raw (snd r) 7 = 0.
 Proof. exact shared_lump_refuted. Qed.
+
+(** Each flag of [shape] is harmful even on an order-consistent graph. *)
+(** seeded fault class c10_2: __get__ empties the main lump before the reader has run; a look that raises loses it. *)
+Theorem c10_clear_before_parse_refuted :
+  let sh := mkShape true false false in
+  let q := get nat (list nat) 0 ex_rd g_one sh 0 ex_bad in
+  let r := save nat (list nat) 0 ex_rd ex_wr g_one sh (snd q) in
+  order_consistent g_one = true /\ shape_ok sh = false /\ raw ex_bad 2 = 99 /\
+  fst q = false /\ cache (snd q) 0 = None /\ fst r = true /\ raw (snd r) 2 = 0 /\ raw (snd r) 3 = 4.
+Proof. exact clear_before_parse_refuted. Qed.
+
+Theorem c10_clear_extra_before_parse_refuted :
+  let sh := mkShape false true false in
+  let r := save nat (list nat) 0 ex_rd ex_wr g_one sh (run nat (list nat) 0 ex_rd g_one sh [0] ex_s0) in
+  order_consistent g_one = true /\ shape_ok sh = false /\ raw ex_s0 3 = 4 /\ fst r = true /\ raw (snd r) 3 = 0.
+Proof. exact clear_extra_before_parse_refuted. Qed.
+
+(** seeded fault class c10_1: save walks a snapshot of the cached views; a view first parsed by a writer is never
+    written back (with the standard shape the same history is lossless: last conjunct). *)
+Theorem c10_snapshot_save_refuted :
+  let sh := mkShape false false true in
+  let r := save nat (list nat) 0 ex_rd ex_wr g_wdep sh (run nat (list nat) 0 ex_rd g_wdep sh [0] ex_s0) in
+  order_consistent g_wdep = true /\ shape_ok sh = false /\ raw ex_s0 1 = 2 /\
+  fst r = true /\ raw (snd r) 1 = 0 /\ cache (snd r) 1 = Some [2] /\
+  raw (snd (save nat (list nat) 0 ex_rd ex_wr g_wdep std_shape (run nat (list nat) 0 ex_rd g_wdep std_shape [0] ex_s0))) 1 = 2.
+Proof. exact snapshot_save_refuted. Qed.
+
+(** ---------------------------------------------------------------------------------------------------------
+    The file container (Fmt/BspContainer.v): header, lump table in either field order, map revision, payload
+    placement in write order, game-lump directory with absolute offsets and the dummy trailing entry, LZMA as an
+    inverse pair.  [layout_ok bsp_layout] and [bsp_layout = std_layout] are instance obligations of the check. *)
+
+(** Reading what was written gives back the container: version, field order, map revision, every lump's version,
+    compressed flag and (decompressed) data, every game lump's id, flags, version and (decompressed) data. *)
+Theorem c10_container_roundtrip : forall compress decompress : list N -> list N,
+  (forall d, decompress (compress d) = d) ->
+  forall (L : layout) (c : container), layout_ok L = true -> wf compress L c = true ->
+  read decompress L (write compress L c) = Some c.
+Proof. exact container_roundtrip. Qed.
+
+(** Payload placement: the segment of every lump of the write order lies exactly at the offset and with the length the
+    table records for it, whatever surrounds the body. *)
+Theorem c10_container_payload_placement : forall (compress : list N -> list N) (L : layout) (c : container) order pos k pre post,
+  In k order -> N.to_nat pos = length pre ->
+  let off := offset_of compress L c pos order k in
+  slice off (len (segment compress L c off k)) (pre ++ body compress L c pos order ++ post) = segment compress L c off k.
+Proof. exact body_slice. Qed.
+
+(** Non-vacuity: the standard layout is fine and a container with L4D2 field order, an LZMA lump, a pakfile and a
+    compressed last game lump is well-formed (and round-trips by the theorem). *)
+Theorem c10_container_hypotheses_satisfiable :
+  layout_ok std_layout = true /\ wf ex_compress std_layout ex_container = true /\
+  (forall d, ex_decompress (ex_compress d) = d) /\
+  read ex_decompress std_layout (write ex_compress std_layout ex_container) = Some ex_container.
+Proof. exact (conj std_layout_ok (conj ex_container_wf (conj ex_lzma_inverse ex_container_roundtrip))). Qed.
+
+(** The non-range conditions of [wf] are necessary (closed witnesses). *)
+Theorem c10_container_compressed_empty_lump_refuted :
+  wf ex_compress std_layout ex_comp_empty = false /\
+  option_map (fun c => nth 1 (c_lumps c) lump0) (read ex_decompress std_layout (write ex_compress std_layout ex_comp_empty))
+  = Some (mkL 0 [93%N] false).
+Proof. exact compressed_empty_lump_refuted. Qed.
+
+Theorem c10_container_compressed_pakfile_refuted :
+  wf ex_compress std_layout ex_comp_pak = false /\
+  option_map (fun c => nth 40 (c_lumps c) lump0) (read ex_decompress std_layout (write ex_compress std_layout ex_comp_pak))
+  = Some (mkL 0 [80%N; 75%N] false).
+Proof. exact compressed_pakfile_refuted. Qed.
+
+Theorem c10_container_game_lump_version_refuted :
+  wf ex_compress std_layout ex_game_ver = false /\
+  option_map (fun c => nth 35 (c_lumps c) lump0) (read ex_decompress std_layout (write ex_compress std_layout ex_game_ver))
+  = Some (mkL 0 [] false).
+Proof. exact game_lump_version_refuted. Qed.
+
+Theorem c10_container_l4d2_first_version_refuted :
+  let f := write ex_compress std_layout ex_l4d2_ver in
+  wf ex_compress std_layout ex_l4d2_ver = false /\ c_l4d2 ex_l4d2_ver = true /\
+  andb (N.eqb (get32 f 4) (l4d2_version std_layout)) (N.eqb (get32 f 8) 0) = false.
+Proof. exact l4d2_first_version_refuted. Qed.
+
+(** ---------------------------------------------------------------------------------------------------------
+    Writers that append to a view they look at (instance obligation: writers only read or append).  In the lazy-lump
+    model a writer leaves the cached value of a dependency unchanged; that is what [find_or_insert] (C11's model
+    Bin/FindInsert.v) does whenever every requested item is already in the table, which is the case for values
+    parsed from the file (each reference was resolved from that table). *)
+Theorem c10_appending_writer_is_a_read_on_parsed_values : forall (l ks : list N), (forall k, In k ks -> In k l) ->
+  FindInsert.items (fst (FindInsert.fi_run (FindInsert.fi_init l) ks)) = l.
+Proof. exact find_or_insert_noop_on_parsed. Qed.
+
+(** The hypothesis cannot be dropped: a missing item is appended (the dummy-edge vertex before fix dae40a3). *)
+Theorem c10_appending_writer_missing_item_refuted :
+  FindInsert.items (fst (FindInsert.fi_run (FindInsert.fi_init [5; 6]%N) [6; 7]%N)) = [5; 6; 7]%N.
+Proof. exact append_when_missing. Qed.
